@@ -2,40 +2,7 @@
    (any fault at any step). *)
 From Coq Require Import List Arith Bool Lia.
 Import ListNotations.
-From GU Require Import C16.Model C16.ProofsA.
-
-Lemma full_length : forall P v, length (full P v) = S (p_more P v).
-Proof. intros. unfold full. rewrite map_length, seq_length. reflexivity. Qed.
-
-Lemma full_nth : forall P v i, i < S (p_more P v) -> nth_error (full P v) i = Some (v, i, true).
-Proof.
-  intros P v i H. unfold full. rewrite nth_error_map. rewrite nth_error_nth' with (d := 0) by (rewrite seq_length; lia).
-  rewrite seq_nth by lia. reflexivity.
-Qed.
-
-Lemma firstn_snoc {A} : forall (d : list A) i x, nth_error d i = Some x -> firstn i d ++ [x] = firstn (S i) d.
-Proof.
-  induction d as [|y r IH]; intros i x H; destruct i; simpl in *; try discriminate.
-  - inversion H; auto.
-  - f_equal. apply IH; auto.
-Qed.
-
-Lemma write_at_next : forall P v i, i < S (p_more P v) ->
-  write_at i (v, i, true) (firstn i (full P v)) = firstn (S i) (full P v).
-Proof.
-  intros P v i H. unfold write_at.
-  assert (L : length (firstn i (full P v)) = i) by (rewrite firstn_length, full_length; lia).
-  rewrite firstn_all2 by lia. rewrite skipn_all2 by lia.
-  apply firstn_snoc. apply full_nth; auto.
-Qed.
-
-Lemma content_put : forall k d R, content k (put_file k d R) = Some d.
-Proof. intros. unfold content, put_file. cbn [r_files]. rewrite aget_aset, fname_eqb_refl. reflexivity. Qed.
-
-Lemma content_set_hash : forall k k' h R, content k (set_hash k' h R) = content k R. Proof. reflexivity. Qed.
-Lemma content_del_hash : forall k k' R, content k (del_hash k' R) = content k R. Proof. reflexivity. Qed.
-Lemma content_set_lock : forall k l R, content k (set_lock l R) = content k R. Proof. reflexivity. Qed.
-Lemma content_set_dir : forall k R, content k (set_dir R) = content k R. Proof. reflexivity. Qed.
+From GU Require Import C16.Model C16.ProofsBase.
 
 Section StoreAlone.
 Variable P : params.
@@ -45,12 +12,17 @@ Hypothesis HK : p_kind P = Mutable.
 (* what is known about cache.zip at each point of the Store of version v *)
 Definition SI (p : pc) (R : remote) : Prop :=
   match p with
-  | SWrite i => i < S (p_more P v) /\ content Cache R = Some (firstn i (full P v))
-  | SClose | SHash2 | SUnlock Ok | Done Ok => content Cache R = Some (full P v)
-  | SHashW h => hval_eqb h (HV (full P v)) = true -> content Cache R = Some (full P v)
+  | SInit | Done Err | Crashed => True
+  | SWrite i => r_dir R = true /\ i < S (p_more P v) /\ content Cache R = Some (firstn i (full P v))
+  | SClose | SHash2 | SUnlock Ok => r_dir R = true /\ content Cache R = Some (full P v)
+  | Done Ok => r_dir R = true /\ content Cache R = Some (full P v) /\ r_lock R = LFree
+  | SHashW h => r_dir R = true /\ (hval_eqb h (HV (full P v)) = true -> content Cache R = Some (full P v))
   | SRename | SFbCreate | SFbWrite _ _ | SFbRemove | SHashMove _ | SHashFbCopy _ | SHashFbRm _ => False  (* immutable only *)
+  | SPrep | SLock | SSrc | SCreate | SFailRm | SUnlock Err => r_dir R = true
   | _ => True
   end.
+
+Lemma r_dir_put : forall k d R, r_dir (put_file k d R) = r_dir R. Proof. reflexivity. Qed.
 
 Lemma store_step_SI : forall c f u R L R' L',
   c_op L = OStore v u -> step P c f R L = (R', L') -> SI (c_pc L) R -> SI (c_pc L') R'.
@@ -64,32 +36,20 @@ Proof.
        unfold SI in *; rewrite ?content_set_hash, ?content_del_hash, ?content_set_lock, ?content_set_dir in *; try exact I; try assumption.
   all: try contradiction.
   all: try congruence.
-  all: try (destruct HI as [Hi Hc]).
+  all: try match goal with r : result |- _ => destruct r end.
+  all: cbn [r_dir r_lock set_dir set_lock set_hash del_hash del_file put_file] in *.
+  all: repeat match goal with H : _ /\ _ |- _ => destruct H end.
   all: try congruence.
-  all: try (rewrite ?content_put; auto; fail).
-  all: try (split; [lia | ]).
   all: try (match goal with E : Nat.ltb _ _ = true |- _ => apply Nat.ltb_lt in E end).
   all: try (match goal with E : Nat.ltb _ _ = false |- _ => apply Nat.ltb_ge in E end).
-  all: try (rewrite content_put).
-  all: try (match goal with Hc : content Cache ?R = Some _, E : content Cache ?R = Some _ |- _ => rewrite Hc in E; inversion E; subst; clear E end).
-  all: try (rewrite write_at_next by lia).
-  all: try reflexivity.
+  all: rewrite ?content_put.
+  all: repeat match goal with Hc : content Cache ?R = Some _, E : content Cache ?R = Some _ |- _ => rewrite Hc in E; inversion E; subst; clear E end.
+  all: rewrite ?write_at_next by lia.
+  all: repeat split; auto; try lia; try congruence.
   all: try (f_equal; rewrite <- (firstn_all (full P v)) at 2; rewrite full_length; f_equal; lia).
-  all: try (intros; assumption).
-  all: try (split; [lia | reflexivity]).
 Qed.
 
 End StoreAlone.
-
-Lemma step_op : forall P c f R L R' L', step P c f R L = (R', L') -> c_op L' = c_op L.
-Proof. intros P c f R L R' L' H. step_cases H; cbn [c_op at_pc with_src with_tmp with_dest]; first [reflexivity | congruence]. Qed.
-
-(* a call executed alone, with an arbitrary fault (or none) at EVERY micro-step *)
-Fixpoint run_faults (P : params) (c : nat) (fs : list fault) (R : remote) (L : client) : remote * client :=
-  match fs with
-  | [] => (R, L)
-  | f :: r => let '(R', L') := step P c f R L in run_faults P c r R' L'
-  end.
 
 Lemma run_faults_SI : forall P v u c fs R L,
   p_kind P = Mutable -> c_op L = OStore v u -> SI P v (c_pc L) R ->
@@ -105,10 +65,15 @@ Qed.
 Lemma store_success_leaves_complete_package_l : forall P v u c fs R,
   p_kind P = Mutable ->
   let '(R', L') := run_faults P c fs R (new_client P (OStore v u)) in
-  c_pc L' = Done Ok -> content Cache R' = Some (full P v).
+  c_pc L' = Done Ok -> r_dir R' = true /\ content Cache R' = Some (full P v) /\ r_lock R' = LFree.
 Proof.
   intros P v u c fs R HK.
   pose proof (run_faults_SI P v u c fs R (new_client P (OStore v u)) HK eq_refl I) as H.
   destruct (run_faults P c fs R (new_client P (OStore v u))) as [R' L']. simpl in H.
   intros E. rewrite E in H. exact H.
 Qed.
+
+Lemma fetch_step_dir : forall P c f R L R' L',
+  c_op L = OFetch -> step P c f R L = (R', L') -> r_dir R' = r_dir R.
+Proof. intros P c f R L R' L' Ho H. step_cases H; try congruence; first [reflexivity | congruence]. Qed.
+
